@@ -55,3 +55,18 @@ Lemma ex_nul_in_name_differs :
   entry_cmp (mkEntry 33188 (bs "a") oid1) (mkEntry 33188 [x61; x00] oid1) = Lt /\
   git_cmp (mkEntry 33188 (bs "a") oid1) (mkEntry 33188 [x61; x00] oid1) = Eq.
 Proof. vm_compute. auto. Qed.
+
+(* ---- editor ---- *)
+From GixV.C03 Require Import ProofsEdit.
+Definition ex_history : list edit_op :=
+  [ Upsert 33188 (bs "a") oid1; Upsert 33188 (bs "a.") oid1; Upsert 33188 (bs "a0") oid1;
+    WriteOut; Upsert 16384 (bs "a") oid1; Remove (bs "a0"); WriteOut ].
+Lemma ex_history_ok : Forall op_name_ok ex_history.
+Proof. repeat constructor; cbn [op_name_ok]; unfold slash_free; cbn; intuition discriminate. Qed.
+(* turning the file `a` into a directory moves it behind `a.` *)
+Lemma ex_history_run :
+  edit_run [] ex_history =
+  Ok ([ mkEntry 33188 (bs "a.") oid1; mkEntry 16384 (bs "a") oid1 ],
+      [ [ mkEntry 33188 (bs "a") oid1; mkEntry 33188 (bs "a.") oid1; mkEntry 33188 (bs "a0") oid1 ];
+        [ mkEntry 33188 (bs "a.") oid1; mkEntry 16384 (bs "a") oid1 ] ]).
+Proof. vm_compute. reflexivity. Qed.
